@@ -10,9 +10,11 @@
    DStride-th selected state.                                                                                *)
 EXTENDS EcCurves, Json, Integers
 CONSTANTS CurveNames, Bases, KFrom, KTo, Stride, DStride
-VARIABLES c, bs, bp, kk, cur, ext      \* (not s, k, P: TLC start-up takes 30 s when variables share names with
-                                   \*  parameters of the recursive operators of EcGroup - measured, not understood)
-vars == << c, bs, bp, kk, cur, ext >>           \* bp = bs*G, the base of this walk (kept in the state: computed once)
+\* Variable names are deliberately unlike any operator PARAMETER of EcGroup/EcCurves (c, k, P, s ...): with such a
+\* clash TLC stops treating constant definitions that apply those operators as constants (EcGroup!InvTab was rebuilt
+\* at every reference; start-up alone took 30 s).
+VARIABLES vCurve, vBs, vBase, vK, vCur, vExt
+vars == << vCurve, vBs, vBase, vK, vCur, vExt >>           \* vBase = vBs*G, the base of this walk (kept in the state: computed once)
 
 KEnd(cv) == IF KTo = 0 THEN cv.n + 1 ELSE KTo
 Selected(sv, kv) == sv = 1 /\ kv % Stride = 0
@@ -23,31 +25,31 @@ Ext(cv, sv, kv, Q) ==
    ELSE [ dbl  |-> Dbl(cv, Q), neg |-> Neg(cv, Q), next |-> Add(cv, Q, G(cv)), prev |-> Sub(cv, Q, G(cv)),
           dbln |-> IF Deep(sv, kv) THEN [e \in 1..(cv.m + 1) |-> DblN(cv, Q, e)] ELSE << >> ]
 
-Init == /\ c \in { CurveByName(nm) : nm \in CurveNames }
-        /\ bs \in Bases /\ kk = KFrom
-        /\ bp = Mul(c, bs, G(c))
-        /\ cur = Mul(c, KFrom, bp)
-        /\ ext = Ext(c, bs, KFrom, cur)
-Step == /\ kk < KEnd(c)
-        /\ kk' = kk + 1
-        /\ cur' = Add(c, cur, bp)
-        /\ ext' = Ext(c, bs, kk + 1, cur')
-        /\ UNCHANGED << c, bs, bp >>
+Init == /\ vCurve \in { CurveByName(nm) : nm \in CurveNames }
+        /\ vBs \in Bases /\ vK = KFrom
+        /\ vBase = Mul(vCurve, vBs, G(vCurve))
+        /\ vCur = Mul(vCurve, KFrom, vBase)
+        /\ vExt = Ext(vCurve, vBs, KFrom, vCur)
+Step == /\ vK < KEnd(vCurve)
+        /\ vK' = vK + 1
+        /\ vCur' = Add(vCurve, vCur, vBase)
+        /\ vExt' = Ext(vCurve, vBs, vK + 1, vCur')
+        /\ UNCHANGED << vCurve, vBs, vBase >>
 Next == Step
 Spec == Init /\ [][Next]_vars
 
 (* ---- checked by TLC on every state *)
-Closed  == OnCurve(c, cur) /\ (Selected(bs, kk) => OnCurve(c, ext.dbl) /\ OnCurve(c, ext.next) /\ OnCurve(c, ext.prev))
-Cycle   == /\ (cur = Inf <=> MulMod(kk % c.n, bs % c.n, c.n) = 0)                         \* ord(B) = n: no early return to Inf  (bs < n)
-           /\ (kk = c.n + 1 => cur = bp)
-Ladder  == (kk % 64 = 0 \/ kk >= c.n - 1) => cur = Mul(c, kk, bp)        \* the walk is the double-and-add multiple
-Special == Deep(bs, kk) =>
-           /\ Mul(c, c.n, cur) = Inf /\ Mul(c, c.n - 1, cur) = ext.neg /\ Mul(c, c.n + 1, cur) = cur
-           /\ \A e \in 1..(c.m + 1) : ext.dbln[e] = Mul(c, Pow2(e), cur)
-DblOk   == Selected(bs, kk) =>
-           /\ ext.dbl = Add(c, cur, cur) /\ Add(c, cur, ext.neg) = Inf
-           /\ Add(c, ext.prev, G(c)) = cur /\ Sub(c, ext.next, G(c)) = cur
+Closed  == OnCurve(vCurve, vCur) /\ (Selected(vBs, vK) => OnCurve(vCurve, vExt.dbl) /\ OnCurve(vCurve, vExt.next) /\ OnCurve(vCurve, vExt.prev))
+Cycle   == /\ (vCur = Inf <=> MulMod(vK % vCurve.n, vBs % vCurve.n, vCurve.n) = 0)                         \* ord(B) = n: no early return to Inf  (vBs < n)
+           /\ (vK = vCurve.n + 1 => vCur = vBase)
+Ladder  == (vK % 64 = 0 \/ vK >= vCurve.n - 1) => vCur = Mul(vCurve, vK, vBase)        \* the walk is the double-and-add multiple
+Special == Deep(vBs, vK) =>
+           /\ Mul(vCurve, vCurve.n, vCur) = Inf /\ Mul(vCurve, vCurve.n - 1, vCur) = vExt.neg /\ Mul(vCurve, vCurve.n + 1, vCur) = vCur
+           /\ \A e \in 1..(vCurve.m + 1) : vExt.dbln[e] = Mul(vCurve, Pow2(e), vCur)
+DblOk   == Selected(vBs, vK) =>
+           /\ vExt.dbl = Add(vCurve, vCur, vCur) /\ Add(vCurve, vCur, vExt.neg) = Inf
+           /\ Add(vCurve, vExt.prev, G(vCurve)) = vCur /\ Sub(vCurve, vExt.next, G(vCurve)) = vCur
 
-Emit == PrintT(ToJson([gen |-> "walk", cn |-> c.name, curve |-> (IF kk = KFrom THEN c ELSE << >>), s |-> bs, base |-> bp, k |-> kk, P |-> cur,
-                       sel |-> Selected(bs, kk), ext |-> ext]))
+Emit == PrintT(ToJson([gen |-> "walk", cn |-> vCurve.name, curve |-> (IF vK = KFrom THEN vCurve ELSE << >>), s |-> vBs, base |-> vBase, k |-> vK, P |-> vCur,
+                       sel |-> Selected(vBs, vK), ext |-> vExt]))
 =============================================================================
